@@ -4,6 +4,7 @@ From Coq.Strings Require Import Byte.
 From Gopki.Model Require Import Bytes Base64 Pem Der Asn1 Text Algs Glue Pkcs8 Ext Rdn Time X509 Generate HashView Dir Plan Run Ops Cli Merge Validate Current.
 From Gopki.Spec Require Import RegenSpec DirInv MergeSpec ValidateSpec X509Spec ExtSpec AdmissionSpec PolicySpec.
 From Gopki.Proofs Require Import RunProofs ExtProofs PlanProofs WfProofs X509Proofs DerProofs Asn1Proofs TimeRangeProofs RdnProofs GenerateProofs ValidateProofs TimeProofs AlgsProofs Base64Proofs PolicyProofs MergeProofs CliProofs OpsProofs FaultProofs HistoryProofs HashViewProofs Pkcs8Proofs RecoverProofs PemTornProofs AdmissionProofs PemProofs GlueProofs.
+From Gopki.Proofs Require Import RegenBoolProofs.
 Import ListNotations.
 
 (* the change list is exactly the regen relation, duplicate-free, issuers first *)
@@ -20,3 +21,9 @@ Theorem C11_plan_iff_regen :
        nth_error ch j = Some y -> find_ent es y = Some e -> issuer_of e = Some x -> i < j).
 Proof. exact plan_spec. Qed.
 Print Assumptions C11_plan_iff_regen.
+
+(* the executable oracle the correspondence check uses for the regeneration relation is that relation *)
+Theorem C11_regen_oracle :
+  forall (es : list ent) (s : strat) (a : alias), regen es s a <-> exists fuel, regenb fuel es s a = true.
+Proof. exact regenb_iff. Qed.
+Print Assumptions C11_regen_oracle.
